@@ -18,6 +18,7 @@ ADAPTATIONS = [
     "A5 param._utils._find_pname returns None and param's logger gets a NullHandler (stack walking/logging only)",
     "A7 dict(mapping-or-pairs, **kw) with concrete keys builds a real dict (CrossHair's ShellMutableMap moves a re-assigned existing key to the end, which changes iteration order relative to CPython)",
     "A8 math.trunc/floor/ceil of an object that is neither symbolic nor a plain number and implements __trunc__/__floor__/__ceil__ (rx) call that method directly; CrossHair would run the C function on a deep-realised copy of the object",
+    "A9 set() / set(concrete list, tuple, set, frozenset, dict or dict view of concrete hashable elements) builds a real set (CrossHair's ShellMutableSet answers `s |= t` with a self-referential lazy union whose membership test recurses without bound)",
     "A6 PYTHONHASHSEED=0 and the search order is seeded from VERIF_SEED",
 ]
 
@@ -182,6 +183,25 @@ def _dict(arg=_DMISSING, **kwargs):
 
 _core._PATCH_REGISTRATIONS[dict] = _dict
 
+# --- A9: set(...) of concrete elements is a real set
+_orig_set = _core._PATCH_REGISTRATIONS[set]
+_SETSRC = (list, tuple, set, frozenset, dict, type({}.keys()), type({}.values()))
+
+
+def _set(itr=_DMISSING):
+    with NoTracing():
+        if itr is _DMISSING:
+            return set()
+        if type(itr) in _SETSRC and all(_concrete_key(k) for k in itr):
+            try:
+                return set(itr)
+            except TypeError:
+                pass
+    return _orig_set(itr)
+
+
+_core._PATCH_REGISTRATIONS[set] = _set
+
 # --- A8: math functions registered with deep realisation copy arbitrary objects; leave non-symbolic protocol objects alone
 import math as _math
 import crosshair.libimpl.mathlib as _ml
@@ -217,7 +237,7 @@ def selftest_a2():
     """Differential self-test of A2 against the builtins on concrete objects (run at shard start)."""
     assert _core._PATCH_REGISTRATIONS[getattr] is _getattr and _core._PATCH_REGISTRATIONS[setattr] is _setattr \
         and _core._PATCH_REGISTRATIONS[hasattr] is _hasattr and _core._PATCH_REGISTRATIONS[dict] is _dict \
-        and _core._PATCH_REGISTRATIONS[callable] is _callable, "adaptations not registered"
+        and _core._PATCH_REGISTRATIONS[callable] is _callable and _core._PATCH_REGISTRATIONS[set] is _set, "adaptations not registered"
     class D:
         def __get__(self, o, t): return 41
     class K:
